@@ -72,7 +72,14 @@ def check(R):
             b = R.body(FS + '::' + m)
             muts = _state_mutations(b)
             R.floor(f'state mutations in {m}', len(muts), 1)
-            R.cut('P2', b, f'mutate fail-safe state in {m}', muts, 'check_state ok', lambda b=b: R.call_guard(b, FS + '::check_state'))
+            if m == 'disarm' and b.calls(FS + '::check_disarm'):
+                # disarm = check_disarm (the validation half, usable before the durable stores) + the state change
+                R.cut('P2', b, f'mutate fail-safe state in {m}', muts, 'check_disarm ok', lambda b=b: R.call_guard(b, FS + '::check_disarm'))
+                b = R.body(FS + '::check_disarm')
+                R.expect('P1', b.fn, 'check_disarm changes no fail-safe state', not _state_mutations(b), 'no writes', 'check_disarm writes fail-safe state')
+                R.cut('P2', b, 'report that disarm would succeed (return Ok)', ok_return_bbs(b), 'check_state ok', lambda b=b: R.call_guard(b, FS + '::check_state'))
+            else:
+                R.cut('P2', b, f'mutate fail-safe state in {m}', muts, 'check_state ok', lambda b=b: R.call_guard(b, FS + '::check_state'))
             t = b.calls(FS + '::check_state')[0]
             pres, absn, op = (_flag_value(F, b, t.d['a'][k]) for k in (2, 3, 4))
             R.expect('P6', b.fn, 'check_state flag arguments are constants', None not in (pres, absn, op), f'present={pres} absent={absn} op={op}', f'present={pres} absent={absn} op={op}', b.where(t.bb))
@@ -186,20 +193,37 @@ def check(R):
         okb = ok_return_bbs(cc)
         R.cut('P2', cc, 'report success (Ok)', okb, 'fabric persisted', lambda: R.call_guard(cc, 'fabric::FabricPersist::store'))
         R.cut('P2', cc, 'report success (Ok)', okb, 'networks persisted', lambda: _site_edges(R, cc, nsite))
-        R.cut('P2', cc, 'persist / close window / drop PASE sessions', call_bbs(cc, 'fabric::FabricPersist::store', 'sc::pase::Pase::close_comm_window', 'transport::session::Sessions::remove_pase'),
-              'FailSafe::disarm ok (armed, CASE session of that fabric)', lambda: R.call_guard(cc, FS + '::disarm'))
-        s = prims.sources(cc, cc.calls('fabric::FabricPersist::store')[0].d['a'][1])
-        R.expect('P10', cc.fn, 'the fabric persisted is the one the fail-safe was armed for', FS + '::disarm' in src_calls(s), 'store(disarm(..)?)', f'{sorted(map(str, s))[:5]}')
-        # stronger ordering: durable before disarm
+        # validation (armed, CASE session of that fabric) precedes every effect; it is done by check_disarm and again inside disarm
+        def validated():
+            e = set()
+            for callee in (FS + '::check_disarm', FS + '::disarm'):
+                if cc.calls(callee):
+                    e |= R.call_guard(cc, callee)
+            if not e:
+                from facts import GuardMissing
+                raise GuardMissing(f'{cc.fn}: neither check_disarm nor disarm is called')
+            return e
+        first_val = [t.bb for t in cc.calls(FS + '::check_disarm', FS + '::disarm')]
+        R.cut('P2', cc, 'persist the fabric / the networks', call_bbs(cc, 'fabric::FabricPersist::store') + [t.bb for t in nsite],
+              'the fail-safe is armed for the CASE session of that fabric (check_disarm / disarm ok)',
+              lambda: R.call_guard(cc, FS + '::check_disarm') if cc.calls(FS + '::check_disarm') else R.call_guard(cc, FS + '::disarm'))
+        R.cut('P2', cc, 'close the commissioning window / drop PASE sessions', call_bbs(cc, 'sc::pase::Pase::close_comm_window', 'transport::session::Sessions::remove_pase'),
+              'FailSafe::disarm ok', lambda: R.call_guard(cc, FS + '::disarm'))
+        s = prims.sources(cc, cc.calls('fabric::FabricPersist::store')[0].d['a'][1], through={'fabric::Fabrics::fabric', 'fabric::Fabrics::fabric_mut'})
+        R.expect('P10', cc.fn, 'the fabric persisted is the one the fail-safe was armed for', bool({FS + '::disarm', FS + '::check_disarm'} & src_calls(s)), 'store(fabrics.fabric(check_disarm(..)?)) / store(disarm(..)?)', f'{sorted(map(str, s))[:5]}')
+        # all-or-nothing under a key-value fault: the fail-safe is disarmed (state = Idle) only after both durable stores succeeded
         dis = call_bbs(cc, FS + '::disarm')
-        before = prims.precedes(cc, call_bbs(cc, 'fabric::FabricPersist::store'), dis)
-        if before:
+        stores_ok = R.call_guard(cc, 'fabric::FabricPersist::store')
+        nets_ok = _site_edges(R, cc, nsite)
+        r1 = set(dis) & prims.reach(cc, (0,), cut_edges=stores_ok)
+        r2 = set(dis) & prims.reach(cc, (0,), cut_edges=nets_ok)
+        if r1 or r2:
             R.fail('P3', cc.fn, 'durable stores succeed before the fail-safe is disarmed',
-                   'FailSafe::disarm (state = Idle) runs before FabricPersist::store / the networks store: if a key-value write fails the command answers an error, '
+                   'FailSafe::disarm (state = Idle) is reachable without the success of FabricPersist::store / the networks store: if a key-value write fails the command answers an error, '
                    'yet the fail-safe is no longer armed, so the unpersisted fabric is neither rolled back nor durable (all-or-nothing broken under a KV fault)',
                    cc.where(dis[0]), key='P3|handle_commissioning_complete|disarm-before-durable-store')
         else:
-            R.ok('P3', cc.fn, 'durable stores succeed before the fail-safe is disarmed', 'store precedes disarm')
+            R.ok('P3', cc.fn, 'durable stores succeed before the fail-safe is disarmed', 'disarm is cut by the Ok edges of both stores')
         owner = bodies_of(F, GC)
         top = [b for b in owner if b.fn == GC][0]
         ends = [t.bb for t in top.calls() if t.d.get('f', '').endswith('::end')]
